@@ -26,8 +26,8 @@ type c10prog struct {
 	name   string
 	decode bool
 	t      reflect.Type
-	doc    string                  // decode programs
-	val    func() interface{}      // encode programs
+	doc    string             // decode programs
+	val    func() interface{} // encode programs
 }
 
 // callback types whose methods themselves make the runtime intervene (events inside user
@@ -158,10 +158,20 @@ func c10progs() []c10prog {
 	enc("[]callback", func() interface{} { return []c10cb{{1}, {2}, {3}} })
 	enc("[]*callback", func() interface{} { return []*c10cb{{1}, nil, {3}} })
 	enc("map[text]callback", func() interface{} { return map[c10tx]c10cb{{V: 1}: {1}, {V: 2}: {2}} })
-	enc("Rec", func() interface{} { var v gen.Rec; json.Unmarshal([]byte(`{"V":1,"next":{"V":2,"kids":[{"V":3},{"V":4,"m":{"a":{"V":5}}}]}}`), &v); return v })
-	enc("map[string]interface", func() interface{} { return map[string]interface{}{"a": []interface{}{1, "s", nil, 1.5}, "b": map[string]interface{}{"c": true}} })
-	enc("[]string-escapes", func() interface{} { return []string{"plain", "q\"\\", "<&>", "é😀", "\xff", strings.Repeat("y", 70)} })
-	enc("floats", func() interface{} { return []interface{}{1.5, float32(0.1), 1e21, -0.0, 5e-324, int8(-1), uint64(1 << 63)} })
+	enc("Rec", func() interface{} {
+		var v gen.Rec
+		json.Unmarshal([]byte(`{"V":1,"next":{"V":2,"kids":[{"V":3},{"V":4,"m":{"a":{"V":5}}}]}}`), &v)
+		return v
+	})
+	enc("map[string]interface", func() interface{} {
+		return map[string]interface{}{"a": []interface{}{1, "s", nil, 1.5}, "b": map[string]interface{}{"c": true}}
+	})
+	enc("[]string-escapes", func() interface{} {
+		return []string{"plain", "q\"\\", "<&>", "é😀", "\xff", strings.Repeat("y", 70)}
+	})
+	enc("floats", func() interface{} {
+		return []interface{}{1.5, float32(0.1), 1e21, -0.0, 5e-324, int8(-1), uint64(1 << 63)}
+	})
 	enc("error-midway(NaN)", func() interface{} { return []interface{}{"a", map[string]interface{}{"k": []float64{1, nanValue()}}} })
 	return l
 }
